@@ -167,7 +167,12 @@ func Main(args []string) error {
 	if err != nil {
 		return err
 	}
-	schema := codeczoo.Schema()
+	schema, err := codeczoo.TrySchema()
+	if err != nil {
+		// the zoo's row type is valid: a refusal is the codec failing its own registration round trip
+		os.WriteFile(*out, nil, 0o644)
+		return os.WriteFile(*out+".rejected", []byte(err.Error()), 0o644)
+	}
 	w, err := tj.NewWriter(*out)
 	if err != nil {
 		return err
